@@ -780,6 +780,86 @@ def documented_index(chosen, rewards, nt, gamma, zeta, bound, window=250):
     return [math.inf if N[a] == 0 else float(X[a] / N[a]) + 2.0 * bound * math.sqrt(zeta * math.log(n) / float(N[a])) for a in range(nt)]
 
 
+LONG_ROUNDS = 330
+LONG_ULPS = 32  # two 250-term float sums (numpy pairwise vs fsum: <= ~10 eps each), one division, sqrt/log, one addition
+
+
+def documented_index_f(chosen, rewards, nt, gamma, zeta, bound, window=250):
+    """Independent float64 evaluation of the documented D-UCB index over the last `window` plays: weights
+    gamma**(t-1-s) with s the ABSOLUTE position of the play in the history, sums by math.fsum."""
+    t = len(rewards)
+    lo = max(0, t - window)
+    ws = [[] for _ in range(nt)]
+    xs = [[] for _ in range(nt)]
+    for s_ in range(lo, t):
+        w = float(gamma) ** (t - 1 - s_)
+        ws[chosen[s_]].append(w)
+        xs[chosen[s_]].append(w * float(rewards[s_]))
+    N = [math.fsum(w) for w in ws]
+    n = math.fsum(N)
+    return [math.inf if N[a] == 0 else math.fsum(xs[a]) / N[a] + 2.0 * bound * math.sqrt(zeta * math.log(n) / N[a]) for a in range(nt)]
+
+
+def long_configs():
+    out = []
+    for kind, bl in (("ducb", "none"), ("gen", "none"), ("gen", "last")):
+        for nt in (2, 3):
+            for gam in (0.9, 0.95):
+                for zeta in (0.0, 0.002):
+                    out.append({"kind": kind, "nt": nt, "gamma": gam, "zeta": zeta, "baseline": bl, "op": "none", "hg": 0.5, "bound": 1.0})
+    return out
+
+
+def long_behaviour(cfg, seed, upto=LONG_ROUNDS):
+    """One long behaviour of the real bandit on a non-stationary random bandit problem (rewards are multiples of 1/16 in
+    [0, 1], arm means drift).  Every choice after the initial rounds is judged.  -> (choices judged, of them beyond round
+    250, first failure or None)"""
+    rng = np.random.default_rng([seed, cfg["nt"], int(cfg["gamma"] * 100), int(cfg["zeta"] * 1000), len(cfg["kind"] + cfg["baseline"])])
+    ad = SelAdapter({"kind": cfg["kind"], "nt": cfg["nt"], "gamma": cfg["gamma"], "baseline": cfg["baseline"], "op": cfg["op"], "hg": cfg["hg"]},
+                    zeta=cfg["zeta"], upper_bound=cfg["bound"])
+    d = ad.ducb
+    means = rng.uniform(0.2, 0.8, size=cfg["nt"])
+    judged = late = 0
+    for rnd in range(upto):
+        pre_ch, pre_rw = list(d.chosen_arms), list(d.rewards)
+        try:
+            a = ad.select()
+        except Exception as e:
+            return judged, late, {"round": rnd, "what": f"select raised {e!r}", "code": f"exception:{type(e).__name__}"}
+        if len(pre_rw) >= 2 * cfg["nt"]:
+            idx = documented_index_f(pre_ch, pre_rw, cfg["nt"], cfg["gamma"], cfg["zeta"], cfg["bound"])
+            best = max(idx)
+            judged += 1
+            late += len(pre_rw) > 250
+            if not (idx[a] == best or idx[a] >= best - LONG_ULPS * np.spacing(abs(best))):
+                return judged, late, {"round": rnd, "what": f"round {rnd} (history {len(pre_rw)}): arm {a} chosen, documented index {idx}",
+                                      "code": "not_a_maximiser_long" if len(pre_rw) > 250 else "not_a_maximiser"}
+        if rnd % 40 == 39:  # the problem is non-stationary
+            means = np.clip(means + rng.uniform(-0.3, 0.3, size=cfg["nt"]), 0.05, 0.95)
+        r = float(np.clip(np.round((means[a] + rng.uniform(-0.25, 0.25)) * 16) / 16, 0.0, 1.0))
+        ad.feedback(r)
+    return judged, late, None
+
+
+def run_long(rep):
+    """Histories longer than the 250-step window with gamma in {0.9, 0.95}: not representable in TLC's integers, so (weaker,
+    order only) every choice must maximise the independent float64 evaluation of the documented index."""
+    tot = late_tot = 0
+    for cfg in long_configs():
+        judged, late, fail = long_behaviour(cfg, rep.seed)
+        tot += judged
+        late_tot += late
+        cls = CLASS_OF[cfg["kind"]]
+        if fail:
+            rep.violation(f"{cls}:long:{fail['code']}", f"{cls} {cfg}: {fail['what']}",
+                          {"kind": "sched:long", "cfg": cfg, "seed": rep.seed, "round": fail["round"]})
+        elif late < LONG_ROUNDS - 251 - 3 * cfg["nt"]:
+            raise tlc.MachineryError(f"long behaviour {cfg} judged only {late} choices beyond round 250")
+    rep.traces += tot
+    rep.extra["sched_long_behaviours"] = {"behaviours": len(long_configs()), "rounds": LONG_ROUNDS, "choices_judged": tot, "beyond_round_250": late_tot}
+    return tot
+
+
 def run_zeta(rep, graphs, quick):
     """zeta > 0: the padding (sqrt, log) is not evaluable in TLA+.  Weaker use: the arm chosen by the real bandit must
     maximise an independent float evaluation of the documented index, up to 4 ulp."""
@@ -962,7 +1042,7 @@ def run_sched(rep):
         graphs, edges, nontrivial = run_selectors(rep, quick, [f.result() for f in f_graphs])
         wc = run_window(rep, [f.result() for f in f_window])
     rep.extra["sched_selector_edges"] = edges
-    zc = run_zeta(rep, graphs, quick)
+    zc = run_zeta(rep, graphs, quick) + run_long(rep)
     binding_canaries(traces, graphs)
     rep.evaluations += edges + calls + zc + wc
     rep.distinct += nontrivial + calls + zc
@@ -973,6 +1053,7 @@ def run_sched(rep):
         "initial rounds, out-of-turn calls, round-robin selections; plus one case per train_st call of the recorded train_uts / "
         "train_active_mt / train_smt runs (systematic budgets x episode limits, scripts drawn with the seed)")
     rep.assumptions += [
+        f"scheduler: D-UCB beyond the 250-step window with gamma in {{0.9, 0.95}} (24 behaviours of {LONG_ROUNDS} rounds, DUCB and DUCBGeneralized, 2 and 3 arms, zeta in {{0, 0.002}}, drifting random rewards from the seed) is checked by order only: every choice maximises an independent float64 evaluation of the documented index (window 250, absolute exponents) up to {LONG_ULPS} ulp (two 250-term sums, division, sqrt/log)",
         "scheduler: D-UCB with zeta>0 is only checked by order: the chosen arm maximises an independent float64 evaluation of the documented index up to 4 ulp (sqrt/log are not evaluable in TLA+)",
         "scheduler: selectors <= 3 arms and <= 11 rounds exhaustively (250-step window by one 262-round behaviour with constant rewards); schedulers <= 4 tasks, dyadic kappa, thresholds +-1, scripted learner (real learners are judged by the loop part)",
         "scheduler: SMT pools and counters are read from the local variables of smt_stage1/smt_stage2/train_active_mt at every train_st call (names are part of the binding)",
@@ -1036,5 +1117,9 @@ def replay_sched(d, rep):
         idx = documented_index(pre[0], pre[1], p["nt"], p["gamma"], d["zeta"], d["bound"])
         print(f"   chosen arm {a}; documented index per arm {idx}")
         return 0 if idx[a] >= max(idx) - 4 * np.spacing(abs(max(idx))) else 1
+    if kind == "sched:long":
+        judged, late, fail = long_behaviour(d["cfg"], d["seed"], upto=d["round"] + 1)
+        print(f"   {d['cfg']}: {judged} choices judged ({late} beyond round 250): {fail['what'] if fail else 'all maximise the documented index'}")
+        return 1 if fail else 0
     print("unknown replay object", str(d)[:200])
     return 2
